@@ -18,7 +18,8 @@ G(n) == Flat([j \in 1..n |-> IF j = 1 THEN <<40, 97, 41>>                    \* 
                              ELSE IF j % 2 = 0 THEN <<40, 98, 41, 63>>        \* (b)?
                              ELSE <<40, 97, 41, 63>>])                        \* (a)?
 Pats == { <<97>>, <<40, 97, 41>>, <<40, 97, 41, 40, 98, 41, 63>>, <<40, 97, 124, 40, 98, 41, 41>>,
-          G(9), G(10), G(12), <<40, 40, 97, 41, 98, 41>> }
+          G(9), G(10), G(12), <<40, 40, 97, 41, 98, 41>>,
+          <<40, 97, 41, 40, 98, 41, 123, 48, 125, 40, 98, 41, 63>> }            \* (a)(b){0}(b)? : a group that is compiled away still counts
 RInputs == { <<>>, <<120>>, <<97>>, <<97, 98>>, <<120, 97, 98, 120, 97>>, <<98, 120, 98>>, <<97, 98, 97>> }
 
 ReplBeh(p) ==
